@@ -673,7 +673,7 @@ MapFlavour.is_consume_cb = lambda self, cb: False
 def make_cases(flavours, tier, seed):
     rnd = random.Random(seed * 7919 + 11)
     cases = []
-    n1 = 4 if tier == "quick" else 40
+    n1 = 6 if tier == "quick" else 40
     # (a) one rank: every flavour x buffer
     for fl in flavours:
         for buf in BUFFERS:
@@ -682,7 +682,7 @@ def make_cases(flavours, tier, seed):
                               "sim_seed": rnd.randrange(1, 1 << 30), "gen_seed": rnd.randrange(1 << 30), "blocks": 5 if tier == "quick" else 8,
                               "eager": rnd.choice([0, 50, 100]), "scale": 1.0 if tier == "quick" else rnd.choice([1.0, 2.0])})
     # (b) distributed: rotate through layouts x routings x buffers x policies
-    nd = (40 if tier == "quick" else 1200) * len(flavours)
+    nd = (80 if tier == "quick" else 2500) * len(flavours)
     off = rnd.randrange(1000)
     for i in range(nd):
         fl = flavours[i % len(flavours)]
